@@ -16,16 +16,18 @@ struct Pending {
     reports: u32,
 }
 
-fn us(ns: i128) -> i128 {
-    ns.div_euclid(1000)
+pub fn monitor(out: &RunOut) -> MonOut {
+    run(out, "C18", 1000)
 }
 
-pub fn monitor(out: &RunOut) -> MonOut {
+/// `tol`: tolerance (ns) when comparing durations derived from stored times. C18 uses 1 us
+/// (it is not about rounding); C19 uses 0 and models truncation toward the epoch exactly.
+pub fn run(out: &RunOut, p: &str, tol: u128) -> MonOut {
     let mut m = MonOut::default();
-    let p = "C18";
     let h = &out.hist;
     // ---- model carried across lifetimes
     let mut first_seen: Option<(String, i128, bool)> = None; // plan id, wall ns, certain
+    let mut first_seen_from_storage; // this attempt read the time back (microsecond precision)
     let mut failed_installs: Option<u64> = Some(0); // committed consecutive failed install attempts; None = unknown
     let mut pending: Option<Pending> = None;
     // the record on storage is not determined by what we saw (system app not part of an update)
@@ -63,7 +65,7 @@ pub fn monitor(out: &RunOut) -> MonOut {
                 m.sig(format!("restart|on_target={on_target}|uncertain={}|reports={}", pd.uncertain, reports.len()));
                 if on_target {
                     if let Some(sw) = start_wall {
-                        let consistent = us(sw) >= us(pd.finish_wall);
+                        let consistent = sw >= (pd.finish_wall / 1000) * 1000;
                         m.count("R3.restarts_on_target_version");
                         if consistent && first_next.is_none() {
                             // the life was cut before its first wait: a report made here still counts
@@ -78,7 +80,7 @@ pub fn monitor(out: &RunOut) -> MonOut {
                             for (i, d) in &early {
                                 let want = (sw - (pd.finish_wall / 1000) * 1000).max(0) as u128;
                                 let diff = if *d > want { *d - want } else { want - *d };
-                                if diff > 1000 {
+                                if diff > tol {
                                     m.viol(p, "R3", format!("L{}@{}", l.life, i), format!("waited-for-reboot duration {} ns, expected finish -> start of this machine = {} ns", d, want));
                                 }
                             }
@@ -167,8 +169,10 @@ pub fn monitor(out: &RunOut) -> MonOut {
             };
             // first-seen model: a new plan's record is durable once the install was started (the
             // commit precedes it); an attempt cut before that leaves the previous record in place
+            first_seen_from_storage = false;
             if let Some(sw) = start_wall_read {
                 let same = matches!(&first_seen, Some((id, _, _)) if *id == plan);
+                first_seen_from_storage = same;
                 if !same && perform {
                     first_seen = Some((plan.clone(), sw, true));
                 }
@@ -197,13 +201,16 @@ pub fn monitor(out: &RunOut) -> MonOut {
             } else if !any_failed {
                 if let (Some(fw), Some((_, fs, certain))) = (finish_wall_read, first_seen.clone()) {
                     if certain && li == 0 || certain {
-                        if fw >= fs {
+                        let fs = if first_seen_from_storage { (fs / 1000) * 1000 } else { fs };
+                        if !super::common::fits_i64_us(fs) {
+                            // not storable: not judged
+                        } else if fw >= fs {
                             m.count("R1.first_seen_durations");
                             let want = (fw - fs) as u128;
                             match fs_metric.as_slice() {
                                 [d] => {
                                     let diff = if *d > want { *d - want } else { want - *d };
-                                    if diff > 1000 {
+                                    if diff > tol {
                                         m.viol(p, "R1", &site, format!("time from first seen to success reported as {} ns, the update (plan {plan}) was first seen {} ns before it finished", d, want));
                                     }
                                 }
@@ -253,7 +260,11 @@ pub fn monitor(out: &RunOut) -> MonOut {
             // R3 bookkeeping: an install with no failed app leaves a record for the next boot
             if !any_failed {
                 if let Some(fw) = finish_wall_read {
-                    if let Some(t) = sys_target.clone() {
+                    if !super::common::fits_i64_us(fw) {
+                        // the finish time cannot be stored: no record, nothing to report later
+                        pending = None;
+                        pending_unknown = true;
+                    } else if let Some(t) = sys_target.clone() {
                         pending = Some(Pending { finish_wall: fw, target: t.or(Some("UNKNOWN".into())), life: l.life, uncertain: !reboot_q, reports: 0 });
                         pending_unknown = false;
                     } else {
